@@ -6,6 +6,48 @@ import HmsProofs.Lemmas.SimHMatch
 namespace HmsProofs.Sim
 open Hms.Core Hms.Core.Comp Hms.Core.VM
 
+/-! ## The heap invariant under allocation and update -/
+
+theorem HeapInv.push {h : Array Cell} (hi : HeapInv h) (c : Cell)
+    (hc : ∀ fs, c = .obj fs → fs.lookup "len" = none ∧ fs.lookup "push" = none) : HeapInv (h.push c) := by
+  intro a fs ha
+  rw [Array.getElem?_push] at ha
+  split at ha
+  · exact hc fs (Option.some.inj ha)
+  · exact hi a fs ha
+
+theorem HeapInv.set {h : Array Cell} (hi : HeapInv h) (a : Nat) (c : Cell)
+    (hc : ∀ fs, c = .obj fs → fs.lookup "len" = none ∧ fs.lookup "push" = none) : HeapInv (h.setIfInBounds a c) := by
+  intro b fs hb
+  rw [Array.getElem?_setIfInBounds] at hb
+  split at hb
+  · split at hb
+    · exact hc fs (Option.some.inj hb)
+    · cases hb
+  · exact hi b fs hb
+
+theorem lookup_setField_ne (fs : List (String × Val)) (k name : String) (v : Val) :
+    ((setField fs name v).lookup k = none) ↔ (fs.lookup k = none) := by
+  unfold setField
+  induction fs with
+  | nil => simp
+  | cons p fs ih =>
+    obtain ⟨p1, p2⟩ := p
+    simp only [List.map_cons]
+    by_cases hp : p1 = name
+    · subst hp
+      simp only [beq_self_eq_true, if_true, List.lookup_cons]
+      by_cases hk : k = p1
+      · subst hk; simp
+      · have : (k == p1) = false := by simpa using hk
+        simp only [this]; exact ih
+    · have hne : (p1 == name) = false := by simpa using hp
+      simp only [hne, Bool.false_eq_true, if_false, List.lookup_cons]
+      by_cases hk : k = p1
+      · subst hk; simp
+      · have : (k == p1) = false := by simpa using hk
+        simp only [this]; exact ih
+
 /-! ## The VM -/
 
 /-- `Cloning_Push []`: a new empty list cell. -/
@@ -444,9 +486,9 @@ theorem listElems_run (G : GCtx) (A : Act) (hA : A.OK G) (st : St) (mem : Mem) (
         reach_push G.code G.lim (baseOf (withIt G.s it_) A.fn A.rest A.mp ⟨h0.push (.list acc), outs⟩)
           (ip + nI (cpE G.mod (ρS scopes) x lm).1) k (⟨v, none⟩ :: ⟨.ref h0.size, none⟩ :: stk) mem ⟨A.fn, 0⟩ A.rest A.c rfl
           hA.code (.int 2) sp (.int (I64.ofInt 2)) ipush (fun _ => rfl)))
-      have hhost := Runs.of_exec1 (fr := G.fr) (mem := mem) (fun it_ k => mkS_listPush G.code G.lim (withIt G.s it_) A.fn
+      have hhost := Runs.of_exec1W (fr := G.fr) (mem := mem) (fun it_ k => mkS_listPush G.code G.lim (withIt G.s it_) A.fn
         (ip + nI (cpE G.mod (ρS scopes) x lm).1 + 1) A.rest A.mp k stk mem.cells ⟨h0.push (.list acc), outs⟩ A.c hA.code sp
-        none none none v h0.size acc ihost (push_get_last h0 _))
+        none none none v h0.size acc ihost (push_get_last h0 _)) (fun hi => hi.set _ _ (fun fs h => by cases h))
       rw [push_set_last] at hhost
       have hrest := hvs2 h0 outs (acc ++ [v])
       rw [List.append_assoc, List.singleton_append] at hrest
@@ -587,6 +629,32 @@ theorem mkS_assign_org (code : Code) (lim : Limits) (s : VMState) (fn : String) 
       all_goals
         cases hh
         simp only [step, mkS, hc, advance, Nat.add_assoc]
+
+theorem HeapInv.assign {h h' : Array Cell} {org : Org} {v : Val} (e : assignHeap h org v = some h') (hi : HeapInv h) :
+    HeapInv h' := by
+  cases org with
+  | listElem a idx =>
+    simp only [assignHeap] at e
+    cases hc : h[a]? with
+    | none => simp [hc] at e
+    | some c =>
+      cases c <;> simp only [hc, reduceCtorEq] at e
+      cases e
+      exact hi.set a _ (fun fs hfs => by cases hfs)
+  | field a name =>
+    simp only [assignHeap] at e
+    cases hc : h[a]? with
+    | none => simp [hc] at e
+    | some c =>
+      cases c <;> simp only [hc, reduceCtorEq] at e
+      · rename_i fs
+        cases e
+        refine hi.set a _ (fun fs' hfs => ?_)
+        cases hfs
+        have := hi a fs hc
+        exact ⟨(lookup_setField_ne fs "len" name v).mpr this.1, (lookup_setField_ne fs "push" name v).mpr this.2⟩
+      · cases e
+        exact hi.set a _ (fun fs hfs => by cases hfs)
 
 theorem setField_eq (fs : List (String × Val)) (k : String) (v : Val) :
     (fs.map fun (k', old) => if k' == k then (k', v) else (k', old)) = setField fs k v := by
